@@ -6,3 +6,4 @@ open Fzf.Props.C11
 #print axioms C11_strip_only_removes
 #print axioms C11_paint_length
 #print axioms C11_color_in_range
+#print axioms C11_spans_ordered
